@@ -3,7 +3,6 @@ import itertools
 import json
 import os
 import shutil
-import sys
 import tempfile
 from fractions import Fraction
 
@@ -15,8 +14,7 @@ from urllib3.util.retry import Retry
 from harness import chunkzoo as zoo
 from harness import common
 from harness.fakes3 import FakeS3
-from katdal.chunkstore import (BadChunk, ChunkNotFound, ChunkStore, ChunkStoreError, _prune_chunks,
-                               generate_chunks)
+from katdal.chunkstore import BadChunk, ChunkStore, _prune_chunks, generate_chunks
 from katdal.chunkstore_dict import DictChunkStore
 from katdal.chunkstore_npy import NpyFileChunkStore
 from katdal.chunkstore_s3 import S3ChunkStore
@@ -107,9 +105,9 @@ def gen_meta_case(rng):
     nd = rng.choice([0, 1, 2, 3])
     sl = []
     for _ in range(nd):
-        a = rng.choice([None] * 1 + [rng.randint(-3, 130000) for _ in range(9)])
-        b = rng.choice([None] * 1 + [(a or 0) + rng.randint(0, 9) for _ in range(9)])
-        c = rng.choice([None, None, 1, 1, 1, 2, -1, 0])
+        a = rng.choice([None] * 1 + [rng.randint(-3, 130000) for _ in range(19)])
+        b = rng.choice([None] * 1 + [(a or 0) + rng.randint(0, 9) for _ in range(19)])
+        c = rng.choice([None, None, None, 1, 1, 1, 1, 1, 1, 2, -1, 0])
         sl.append((a, b, c))
     r = rng.random()
     if r < 0.4:
@@ -144,6 +142,23 @@ def gen_url_case(rng):
     comps = [c if c not in ('.', '..', '-.', '.-') and not c.startswith('.') else 'q' + c.replace('.', 'd')
              for c in comps]
     return dict(kind='url', name='/'.join(comps), starts=[rng.randint(0, 120000) for _ in range(rng.randint(0, 3))])
+
+
+# the documented forms (docstrings of ChunkStore.chunk_id_str, NpyFileChunkStore, S3ChunkStore)
+DOC_EXAMPLES = [((12, 1024, 0), '00012_01024_00000'), ((1, 512), '00001_00512'), ((0,), '00000'),
+                ((99999, 100000), '99999_100000')]
+
+
+def run_doc_case(ctx, case):
+    starts, want = DOC_EXAMPLES[case['i']]
+    slices = tuple(slice(a, a + 1) for a in starts)
+    got = ChunkStore.chunk_id_str(slices)
+    if got != want:
+        return f'chunk_id_str{starts} gives {got!r}, the documented zero-padded form is {want!r}'
+    name, _ = ChunkStore.chunk_metadata('array', slices)
+    if name != 'array/' + want:
+        return f'chunk name for {starts} is {name!r}, documented form is {"array/" + want!r}'
+    return None
 
 
 def gen_complete_case(rng):
@@ -189,7 +204,7 @@ def model_lines(case):
                 f"{','.join(map(str, dims)) if dims else '-'} {int(case['pow2'])} {md}"]
     if k == 'url':
         return [f"name {case['name']} {','.join(map(str, case['starts']))}"]
-    if k == 'complete':
+    if k in ('complete', 'doc'):
         return []
     raise ValueError(k)
 
@@ -524,6 +539,9 @@ def evaluate(ctx, cases, env):
         elif k == 'url':
             v = run_url_case(ctx, c, env, rep[0])
             ctx.count(key, '_' in c['name'], sample=None)
+        elif k == 'doc':
+            v = run_doc_case(ctx, c)
+            ctx.count(key, True, sample=None)
         else:
             v = run_complete_case(ctx, c, env)
             ctx.tag('complete-' + c['backend'])
@@ -632,10 +650,6 @@ def prepare(ctx):
     ctx.matchers['c07_empty_slice_on_chunk_boundary'] = m_empty_slice_boundary
     ctx.matchers['c07_s3_put_zero_dim'] = m_s3_put_zero_dim
     ctx.matchers['c07_s3_put_datetime'] = m_s3_put_datetime
-    rc, out = common.run_cmd([sys.executable, os.path.join(common.VERIF, 'tools', 'extract_tables_c08.py')],
-                             cwd=common.VERIF)
-    if rc != 0:
-        raise common.Broken('extract_tables_c08 failed:\n' + out)
 
 
 def run(ctx):
@@ -645,6 +659,7 @@ def run(ctx):
     n_meta = ctx.q(300, 6000)
     n_gen = ctx.q(500, 20000)
     cases = corpus_cases()
+    cases += [dict(kind='doc', i=i) for i in range(len(DOC_EXAMPLES))]
     cases += [gen_store_case(ctx.rng) for _ in range(n_store)]
     cases += [gen_meta_case(ctx.rng) for _ in range(n_meta)]
     cases += [gen_gen_case(ctx.rng) for _ in range(n_gen)]
